@@ -399,6 +399,11 @@ class Worker:
                             # exit: this is not the task's own exception.
                             raise
                         result = (False, ExceptionInfo())
+                    if _should_have_exited[0]:
+                        # a termination signal arrived during the task and
+                        # the task swallowed the exit request: exit now
+                        # instead of going on to take further jobs.
+                        raise SystemExit()
                     try:
                         put((READY, (job, i, result, inqW_fd)))
                     except Exception as exc:
